@@ -237,7 +237,9 @@ class CGenerator:
         return self._generate_struct_union_enum(n, name="enum")
 
     def visit_Alignas(self, n: c_ast.Alignas) -> str:
-        return "_Alignas({})".format(self.visit(n.alignment))
+        # The operand is a type name or a constant expression; a comma
+        # expression needs its own parentheses there.
+        return "_Alignas({})".format(self._visit_const_expr(n.alignment))
 
     def visit_Enumerator(self, n: c_ast.Enumerator) -> str:
         if not n.value:
